@@ -744,3 +744,149 @@ func enclosingCond(body ast.Node, n ast.Node) ast.Expr {
 	})
 	return best
 }
+
+func init() {
+	prev := registry["C06"].Run
+	registry["C06"].Run = func(c *Ctx) { prev(c); extraC06Round5(c) }
+}
+
+func extraC06Round5(c *Ctx) {
+	info := c.P.Pkgs["kvcache"].TypesInfo
+	rule := "C06-R12"
+	c.Rule(rule, "a tensor is addressed with its own geometry: in package kvcache every Stride that enters the arguments of X.View(…) — directly or through a local assigned from it — is a stride of X itself (keys and values may have different head dimensions, so the row stride of the key tensor placed in a view of the value tensor moves the wrong bytes: after a defragmentation the entry keeps its key and gets another entry's value)")
+	nV, nS := 0, 0
+	for _, top := range c.P.FuncsOf("kvcache") {
+		if strings.HasSuffix(c.Pos(top.Body), "_test.go") {
+			continue
+		}
+		seq := 0
+		ast.Inspect(top.Body, func(n ast.Node) bool {
+			call, ok := n.(*ast.CallExpr)
+			if !ok || core.CalleeName(info, call) != "ml.Tensor.View" {
+				return true
+			}
+			se, isS := ast.Unparen(call.Fun).(*ast.SelectorExpr)
+			if !isS {
+				return true
+			}
+			nV++
+			seq++
+			recv := core.ExprString(se.X)
+			bad := ""
+			checkStride := func(sc *ast.CallExpr) {
+				if core.CalleeName(info, sc) != "ml.Tensor.Stride" {
+					return
+				}
+				nS++
+				if r := core.ExprString(ast.Unparen(sc.Fun).(*ast.SelectorExpr).X); r != recv {
+					bad = "stride of " + r
+				}
+			}
+			for _, a := range call.Args {
+				ast.Inspect(a, func(m ast.Node) bool {
+					switch x := m.(type) {
+					case *ast.CallExpr:
+						checkStride(x)
+					case *ast.Ident:
+						o := info.Uses[x]
+						if o == nil {
+							return true
+						}
+						if rhs, _, cnt := singleDef(info, top.Body, o); cnt == 1 && rhs != nil {
+							if sc, isC := ast.Unparen(rhs).(*ast.CallExpr); isC {
+								checkStride(sc)
+							}
+						}
+					}
+					return true
+				})
+			}
+			c.Check(rule, top.Key()+" view#"+itoa(seq)+" of "+normCell(recv), c.Pos(call), bad == "", "the view of "+recv+" is laid out with the "+bad)
+			return true
+		})
+	}
+	c.Expect(rule, "View calls in package kvcache", nV, 12)
+	c.Expect(rule, "strides entering View arguments", nS, 15)
+
+	rule = "C06-R13"
+	c.Rule(rule, "the window is anchored at the lowest position a sequence has in the batch, whatever the order of the batch: in updateSlidingWindow the loop that fills the per-sequence position map consults the entry already recorded for the sequence and compares the current position with it before storing (a batch may interleave sequences — [0,1,0,1] — so taking the first position of each run lets a later run overwrite an earlier, lower one, and cells still inside the window of the earlier tokens are freed)")
+	f := c.Fn(rule, "kvcache", "Causal.updateSlidingWindow")
+	if f == nil {
+		return
+	}
+	g := c.G(f)
+	// the map: a local of map type that is stored into inside a loop
+	n := 0
+	for _, st := range g.Find(func(m ast.Node) bool {
+		as, ok := m.(*ast.AssignStmt)
+		if !ok || len(as.Lhs) != 1 {
+			return false
+		}
+		ix, isIx := ast.Unparen(as.Lhs[0]).(*ast.IndexExpr)
+		if !isIx {
+			return false
+		}
+		id, isId := ast.Unparen(ix.X).(*ast.Ident)
+		if !isId {
+			return false
+		}
+		v, isV := info.Uses[id].(*types.Var)
+		if !isV || v.IsField() {
+			return false
+		}
+		_, isMap := v.Type().Underlying().(*types.Map)
+		return isMap
+	}) {
+		as := st.Node.(*ast.AssignStmt)
+		mobj := info.Uses[ast.Unparen(ast.Unparen(as.Lhs[0]).(*ast.IndexExpr).X).(*ast.Ident)]
+		loop := loopAround(f, as)
+		if loop == nil {
+			continue
+		}
+		n++
+		// a look-up of the same map in the loop, whose result is compared (or min'ed) with something
+		var prev types.Object
+		lookup := false
+		ast.Inspect(loop, func(m ast.Node) bool {
+			a2, ok := m.(*ast.AssignStmt)
+			if !ok || len(a2.Rhs) != 1 || ast.Node(a2) == ast.Node(as) {
+				return true
+			}
+			if ix, isIx := ast.Unparen(a2.Rhs[0]).(*ast.IndexExpr); isIx {
+				if id, isId := ast.Unparen(ix.X).(*ast.Ident); isId && info.Uses[id] == mobj {
+					lookup = true
+					if pid, isP := a2.Lhs[0].(*ast.Ident); isP {
+						prev = info.ObjectOf(pid)
+					}
+				}
+			}
+			return true
+		})
+		compared := false
+		if prev != nil {
+			ast.Inspect(loop, func(m ast.Node) bool {
+				switch x := m.(type) {
+				case *ast.BinaryExpr:
+					if (x.Op == token.LSS || x.Op == token.GTR || x.Op == token.LEQ || x.Op == token.GEQ) && (core.UsesObj(info, x.X, prev) != core.UsesObj(info, x.Y, prev)) {
+						compared = true
+					}
+				case *ast.CallExpr:
+					if core.CalleeName(info, x) == "builtin.min" && core.UsesObj(info, x, prev) {
+						compared = true
+					}
+				}
+				return true
+			})
+		}
+		// nothing leaves the iteration before the look-up
+		skip := ""
+		core.InspectShallow(loop, func(m ast.Node) bool {
+			if br, ok := m.(*ast.BranchStmt); ok && (br.Tok == token.CONTINUE || br.Tok == token.BREAK) && br.Pos() < as.Pos() {
+				skip = c.Pos(br)
+			}
+			return true
+		})
+		c.Check(rule, f.Key()+" lowest-position store#"+itoa(n), c.Pos(as), lookup && compared && skip == "", "the store into the per-sequence map must follow a look-up of the sequence's recorded position and a comparison with it, with no iteration skipped (look-up: "+boolStr(lookup)+", comparison: "+boolStr(compared)+", skip at: "+skip+")")
+	}
+	c.Expect(rule, "stores into the per-sequence position map", n, 1)
+}
